@@ -1,10 +1,13 @@
 package cli
 
 import (
+	"encoding/base64"
 	"fmt"
 	"os"
 	"path/filepath"
+	"strconv"
 	"strings"
+	"unicode/utf8"
 
 	"github.com/FollowTheProcess/spok/parser"
 	"pgregory.net/rapid"
@@ -20,6 +23,8 @@ type FmtCase struct {
 	// ProjDir names the directory holding the spokfile ("" = proj)
 	ProjDir string `json:"proj_dir,omitempty"`
 	Src     string `json:"src"`
+	// B64: the exact bytes when they are not valid UTF-8 (Src is then only for the reader)
+	B64 string `json:"src_b64,omitempty"`
 	// Elsewhere: run from another directory with --spokfile <project>/spokfile
 	Elsewhere bool `json:"elsewhere,omitempty"`
 	// OtherCase: the text is in <project>/Spokfile and --spokfile points at it, next to a different,
@@ -98,12 +103,26 @@ func genFmtBody(t *rapid.T) FmtCase {
 			stmts = append(stmts, gen.Stmt{Kind: "assign", Name: "AFTER", ValKind: "string", ValText: "tail"})
 		}
 	}
-	return FmtCase{Src: gen.Render(gen.RapidChooser{T: t}, gen.Normalize(stmts))}
+	x := gen.WithStrayBytes(t, gen.Render(gen.RapidChooser{T: t}, gen.Normalize(stmts)))
+	if !utf8.ValidString(x) {
+		return FmtCase{Src: strconv.QuoteToASCII(x), B64: base64.StdEncoding.EncodeToString([]byte(x))}
+	}
+	return FmtCase{Src: x}
+}
+
+func (c FmtCase) text() string {
+	if c.B64 != "" {
+		if b, err := base64.StdEncoding.DecodeString(c.B64); err == nil {
+			return string(b)
+		}
+	}
+	return c.Src
 }
 
 // execFmtBinary runs `spok --fmt` (twice) on the file and judges the result for property id.
 func execFmtBinary(id string, s *ev.Shard, b *sandbox.Box, c FmtCase) *rp.Fail {
-	tree1, err := parser.New(c.Src).Parse()
+	src := c.text()
+	tree1, err := parser.New(src).Parse()
 	if err != nil {
 		return nil // not this check's business (C06)
 	}
@@ -111,11 +130,11 @@ func execFmtBinary(id string, s *ev.Shard, b *sandbox.Box, c FmtCase) *rp.Fail {
 		return &rp.Fail{Sig: "harness", Msg: err.Error()}
 	}
 	const siblingSrc = "# the other one\nOTHER := \"kept\"\n\ntask other() {\n    echo other\n}\n"
-	files := map[string]string{"spokfile": c.Src, "spokfile.bak": siblingSrc, "sub/spokfile": siblingSrc}
+	files := map[string]string{"spokfile": src, "spokfile.bak": siblingSrc, "sub/spokfile": siblingSrc}
 	path := filepath.Join(b.Proj, "spokfile")
 	cwd, fmtArgs := b.Proj, []string{"--fmt"}
 	if c.OtherCase {
-		files["spokfile"], files["Spokfile"] = siblingSrc, c.Src
+		files["spokfile"], files["Spokfile"] = siblingSrc, src
 		path = filepath.Join(b.Proj, "Spokfile")
 		fmtArgs = []string{"--spokfile", path, "--fmt"}
 	}
@@ -129,7 +148,7 @@ func execFmtBinary(id string, s *ev.Shard, b *sandbox.Box, c FmtCase) *rp.Fail {
 		cwd = filepath.Join(b.Home, "elsewhere")
 		fmtArgs = []string{"--spokfile", path, "--fmt"}
 	}
-	size := len(c.Src)
+	size := len(src)
 	before, err := sandbox.Snapshot(b.SB)
 	if err != nil {
 		return &rp.Fail{Sig: "harness", Msg: err.Error()}
@@ -159,8 +178,8 @@ func execFmtBinary(id string, s *ev.Shard, b *sandbox.Box, c FmtCase) *rp.Fail {
 	if r1.Exit != 0 {
 		// a spokfile that parses but does not load (duplicate task names, ...) is left alone by --fmt
 		after, _ := os.ReadFile(path)
-		if string(after) != c.Src {
-			return &rp.Fail{Sig: "fmt-failed-but-wrote", Size: size, Msg: fmt.Sprintf("spokfile %q: --fmt failed (%s) but changed the file to %q", c.Src, sandbox.Strip(r1.Stderr), after)}
+		if string(after) != src {
+			return &rp.Fail{Sig: "fmt-failed-but-wrote", Size: size, Msg: fmt.Sprintf("spokfile %q: --fmt failed (%s) but changed the file to %q", src, sandbox.Strip(r1.Stderr), after)}
 		}
 		if s != nil {
 			s.Class("fmt_refused_unloadable")
@@ -169,7 +188,7 @@ func execFmtBinary(id string, s *ev.Shard, b *sandbox.Box, c FmtCase) *rp.Fail {
 	}
 	data1, err := os.ReadFile(path)
 	if err != nil {
-		return &rp.Fail{Sig: "fmt-removed-spokfile", Size: size, Msg: fmt.Sprintf("spokfile %q: gone after --fmt: %v", c.Src, err)}
+		return &rp.Fail{Sig: "fmt-removed-spokfile", Size: size, Msg: fmt.Sprintf("spokfile %q: gone after --fmt: %v", src, err)}
 	}
 	f1 := string(data1)
 	tree2, err2 := parser.New(f1).Parse()
@@ -178,14 +197,14 @@ func execFmtBinary(id string, s *ev.Shard, b *sandbox.Box, c FmtCase) *rp.Fail {
 		// the CLI must have parsed the very structure the parser finds in the file's text: what it
 		// writes back is the rendering of its tree, so it must equal the rendering of ours
 		if want := tree1.String(); f1 != want {
-			return &rp.Fail{Sig: "cli-parsed-different-structure", Size: size, Msg: fmt.Sprintf("spokfile %q: the parser's tree for this text renders as %q, but the tree `spok --fmt` built from the file renders as %q", clip(c.Src), clip(want), clip(f1))}
+			return &rp.Fail{Sig: "cli-parsed-different-structure", Size: size, Msg: fmt.Sprintf("spokfile %q: the parser's tree for this text renders as %q, but the tree `spok --fmt` built from the file renders as %q", clip(src), clip(want), clip(f1))}
 		}
 	case "C07":
 		if err2 != nil {
-			return &rp.Fail{Sig: "fmt-broke-spokfile", Size: size, Msg: fmt.Sprintf("spokfile %q parses; after `spok --fmt` the file is %q which does not: %v", c.Src, f1, err2)}
+			return &rp.Fail{Sig: "fmt-broke-spokfile", Size: size, Msg: fmt.Sprintf("spokfile %q parses; after `spok --fmt` the file is %q which does not: %v", src, f1, err2)}
 		}
 		if d := gen.Diff(gen.Semantic(gen.Project(tree2)), gen.Semantic(gen.Project(tree1))); d != "" {
-			return &rp.Fail{Sig: "fmt-changed-meaning", Size: size, Msg: fmt.Sprintf("spokfile %q; after `spok --fmt` the file is %q and defines different things: %s", c.Src, f1, d)}
+			return &rp.Fail{Sig: "fmt-changed-meaning", Size: size, Msg: fmt.Sprintf("spokfile %q; after `spok --fmt` the file is %q and defines different things: %s", src, f1, d)}
 		}
 	case "C15":
 		if err2 != nil {
@@ -193,7 +212,7 @@ func execFmtBinary(id string, s *ev.Shard, b *sandbox.Box, c FmtCase) *rp.Fail {
 		}
 		c1, c2 := gen.Comments(gen.Project(tree1)), gen.Comments(gen.Project(tree2))
 		if strings.Join(c1, "\x00") != strings.Join(c2, "\x00") {
-			return &rp.Fail{Sig: "fmt-changed-comments", Size: size, Msg: fmt.Sprintf("spokfile %q has comments/docstrings %q; after `spok --fmt` the file %q has %q", c.Src, c1, f1, c2)}
+			return &rp.Fail{Sig: "fmt-changed-comments", Size: size, Msg: fmt.Sprintf("spokfile %q has comments/docstrings %q; after `spok --fmt` the file %q has %q", src, c1, f1, c2)}
 		}
 	case "C11":
 		if err2 != nil {
@@ -202,20 +221,20 @@ func execFmtBinary(id string, s *ev.Shard, b *sandbox.Box, c FmtCase) *rp.Fail {
 		r2 := b.Run(cwd, nil, runTimeout, fmtArgs...)
 		data2, _ := os.ReadFile(path)
 		if r2.Exit != 0 || string(data2) != f1 {
-			return &rp.Fail{Sig: "fmt-not-idempotent", Size: size, Msg: fmt.Sprintf("spokfile %q: first --fmt gives %q, second --fmt (exit %d) gives %q", c.Src, f1, r2.Exit, data2)}
+			return &rp.Fail{Sig: "fmt-not-idempotent", Size: size, Msg: fmt.Sprintf("spokfile %q: first --fmt gives %q, second --fmt (exit %d) gives %q", src, f1, r2.Exit, data2)}
 		}
 	}
 	if s != nil {
 		switch {
-		case len(f1) < len(c.Src):
+		case len(f1) < len(src):
 			s.Class("fmt_shrinks_file")
-		case len(f1) > len(c.Src):
+		case len(f1) > len(src):
 			s.Class("fmt_grows_file")
 		default:
 			s.Class("fmt_same_size")
 		}
-		if f1 != c.Src {
-			s.NonTrivial("bin:" + c.Src)
+		if f1 != src {
+			s.NonTrivial("bin:" + src)
 		}
 	}
 	return nil
